@@ -7,7 +7,7 @@
 (* which the harness also replays (B2) around the real designed_network().                                       *)
 EXTENDS DesignLifecycle, Json
 
-CONSTANT Family                       \* "docs" | "sims"
+CONSTANT Family                       \* "docs" | "docsq" (quick tier: a sample of the documents) | "sims"
 
 AmpSlots == {[gain |-> gv, dp |-> d, voa |-> v] : gv \in {NONE, 18}, d \in {NONE, 1}, v \in {NONE, 2}}
 MCDocsAll == {[base |-> b, conOut |-> c, attIn |-> a, aged |-> FALSE, raman |-> r, amps |-> <<a1, a2>>] :
@@ -15,10 +15,13 @@ MCDocsAll == {[base |-> b, conOut |-> c, attIn |-> a, aged |-> FALSE, raman |-> 
 MCDocsRaman == {d \in MCDocsAll : d.raman /\ d.base = 16 /\ d.conOut = 1 /\ d.attIn = 0
                                   /\ d.amps[1] \in {[gain |-> NONE, dp |-> NONE, voa |-> NONE], [gain |-> 18, dp |-> 1, voa |-> 2]}
                                   /\ d.amps[2].dp = NONE /\ d.amps[2].voa = NONE}
-MCDocs == IF Family = "docs" THEN MCDocsAll ELSE MCDocsRaman
+\* quick-tier sample: the second amplifier either fully designed by the user or left entirely to the design
+MCDocsQuick == {d \in MCDocsAll : d.conOut # 0 /\ (d.amps[2].gain = NONE) = (d.amps[2].dp = NONE)
+                                   /\ (d.amps[2].gain = NONE) = (d.amps[2].voa = NONE)}
+MCDocs == IF Family = "docs" THEN MCDocsAll ELSE IF Family = "docsq" THEN MCDocsQuick ELSE MCDocsRaman
 
 MCCfgsAll == {[eol |-> e, padding |-> p, powerMode |-> m] : e \in {0, 1}, p \in {0, 10}, m \in BOOLEAN}
-MCCfgs == IF Family = "docs" THEN MCCfgsAll ELSE {[eol |-> 0, padding |-> 10, powerMode |-> m] : m \in BOOLEAN}
+MCCfgs == IF Family \in {"docs", "docsq"} THEN MCCfgsAll ELSE {[eol |-> 0, padding |-> 10, powerMode |-> m] : m \in BOOLEAN}
 
 Default == [flag |-> FALSE, method |-> "perturbative", order |-> 2, resultRes |-> 10000, solverRes |-> 10000,
             nli |-> "gn_model_analytic", cc |-> <<NONE>>, ncc |-> NONE]
@@ -29,7 +32,7 @@ MCSimsAll == {[flag |-> f, method |-> m, order |-> o, resultRes |-> r[1], solver
                nli |-> n.nli, cc |-> n.cc, ncc |-> n.ncc] :
                  f \in BOOLEAN, m \in {"perturbative", "numerical"}, o \in {1, 2},
                  r \in {<<10000, 10000>>, <<20000, 2000>>}, n \in Nli}
-MCSims == IF Family = "docs" THEN {Default} ELSE MCSimsAll
+MCSims == IF Family \in {"docs", "docsq"} THEN {Default} ELSE MCSimsAll
 
 \* B2: the simulation-parameter settings, one line each (initial states of the "sims" family)
 EmitDoc == CHOOSE d \in MCDocs : TRUE
